@@ -21,6 +21,15 @@
              else (0 <what differs>); "skipped" with the flag noreenc.
        The harness answers with lopdf opening <isoenc> in the same notation and (reenc 1).
 
+   (isoref <ver> <implenc> (pws xPW ...))
+       the reference for the direct verdict on the file LOPDF wrote (revisions 2-4; the generator asks this before it
+       writes the `case` line, whose last element is the answer; the harness compares):
+       (isoref (o xO) (u xU) (auth (xPW a6 a7) ...)) | (isoref none) (revision 5, 6) | (isoref unreadable)
+         O = Algorithm 3 for the passwords and the key length of <ver>; U = Algorithm 4 / 5 for that O, the P of <ver>,
+         the file identifier of <implenc> and -- the only thing read from lopdf's dictionary -- the 16 arbitrary bytes
+         lopdf appended; a6 / a7 = does Algorithm 6 / Algorithm 7 authenticate xPW against the dictionary of <implenc>
+         (read with read_params) as user / as owner password.
+
    <ver> ::= (v1 xOWNER xUSER perms) | (v2 xOWNER xUSER keylen perms)
            | (v4 em <cfs> xSTMF xSTRF xOWNER xUSER perms)
            | (r5 em <cfs> xFEK xSTMF xSTRF xOWNER xUSER perms) | (v5 ... same ...)
@@ -233,8 +242,33 @@ Definition run_case (dx vx lx : sx) (pws : list sx) (fl : sx) : sx :=
   | _, _, _, _ => sx_id "badcase"
   end.
 
+Definition is_some {A} (o : option A) : bool := match o with Some _ => true | None => false end.
+
+Definition run_isoref (vx lx : sx) (pws : list sx) : sx :=
+  match request_of_sx vx, doc_of_sx lx, omap as_bytes pws with
+  | Some rq, Some impl, Some pws =>
+    match find_encrypt impl with
+    | None => SL [sx_id "isoref"; sx_id "unreadable"]
+    | Some (_, e) =>
+      match read_params e with
+      | None => SL [sx_id "isoref"; sx_id "unreadable"]
+      | Some ipL =>
+        if (rq_R rq <=? 4)%Z then
+          let id0 := file_id0 (d_trailer impl) in
+          let '(ip, _) := make_params I rq id0 [skipn 16 (ip_U ipL)] in
+          let a6 pw := alg6 I (ip_R ipL) (ip_Length ipL) (ip_O ipL) (ip_U ipL) (ip_P ipL) id0 (ip_EncryptMetadata ipL) pw in
+          let a7 pw := alg7 I (ip_R ipL) (ip_Length ipL) (ip_O ipL) (ip_U ipL) (ip_P ipL) id0 (ip_EncryptMetadata ipL) pw in
+          SL [sx_id "isoref"; SL [sx_id "o"; sx_bytes (ip_O ip)]; SL [sx_id "u"; sx_bytes (ip_U ip)];
+              SL (sx_id "auth" :: map (fun pw => SL [sx_bytes pw; sx_bool (is_some (a6 pw)); sx_bool (is_some (a7 pw))]) pws)]
+        else SL [sx_id "isoref"; sx_id "none"]
+      end
+    end
+  | _, _, _ => sx_id "badcase"
+  end.
+
 Definition run (x : sx) : sx :=
   match x with
+  | SL [t; vx; lx; SL (_ :: pws)] => if is_id t "isoref" then run_isoref vx lx pws else sx_id "badcase"
   | SL [t; dx; vx; rx; ix] =>
     if is_id t "enc" then
       match doc_of_sx dx, request_of_sx vx, bytes_list_of_sx rx, bytes_list_of_sx ix with
@@ -253,6 +287,8 @@ Definition run (x : sx) : sx :=
   (* a seventh element (raw xTEXT ...): the Unicode texts of the passwords, for the harness only -- this side works
      on the prepared bytes *)
   | SL [t; dx; vx; _; lx; SL (_ :: pws); fl; _] => if is_id t "case" then run_case dx vx lx pws fl else sx_id "badcase"
+  (* and an (isoref ...) element (the answer to an `isoref` line, see above): for the harness only as well *)
+  | SL [t; dx; vx; _; lx; SL (_ :: pws); fl; _; _] => if is_id t "case" then run_case dx vx lx pws fl else sx_id "badcase"
   | _ => sx_id "badcase"
   end.
 
